@@ -4,7 +4,7 @@
 # 2. copies it to /verif/seeded/<ID>-<name>/
 # 3. applies it to /repo, runs the quick check, undoes it; appends the outcome to /verif/seeded/RESULTS.txt
 set -u
-SD="$1"; ID="$2"; NAME="$3"; TESTS="${4:-}"
+SD="$1"; ID="$2"; NAME="$3"; TESTS="${4:-}"; TIER="${5:-quick}"
 WT=/tmp/wt_verify_$$
 git -C /repo worktree add -q "$WT" HEAD || exit 2
 trap 'git -C /repo worktree remove --force "$WT" >/dev/null 2>&1' EXIT
@@ -24,18 +24,21 @@ mkdir -p "$DEST"; cp "$SD/patch.diff" "$DEST/patch.diff"; cp "$SD/demo.py" "$DES
 git -C /repo status --short | grep -q . && { echo "/repo not clean"; exit 2; }
 git -C /repo apply "$SD/patch.diff" || exit 2
 T0=$(date +%s)
-(cd /verif && ./vcheck run "$ID" --tier quick --quiet > "$DEST/check_output.txt" 2>&1); RC=$?
+(cd /verif && ./vcheck run "$ID" --tier "$TIER" --quiet > "$DEST/check_output_$TIER.txt" 2>&1); RC=$?
+cp "$DEST/check_output_$TIER.txt" "$DEST/check_output.txt"
 T1=$(date +%s)
 git -C /repo checkout -- .
 NV=$(grep -c '^VIOLATION' "$DEST/check_output.txt")
 FIRST=$(grep -A1 '^VIOLATION' "$DEST/check_output.txt" | sed -n 2p | cut -c1-300)
-python3 - "$SD/meta.json" "$DEST/meta.json" "$ID" "$RC" "$NV" "$((T1-T0))" "$RC_CLEAN" "$RC_MUT" "$TESTS_OK" "$TESTS" <<'PY'
+python3 - "$SD/meta.json" "$DEST/meta.json" "$ID" "$RC" "$NV" "$((T1-T0))" "$RC_CLEAN" "$RC_MUT" "$TESTS_OK" "$TESTS" "$TIER" <<'PY'
 import json,sys
-src,dst,pid,rc,nv,secs,rcc,rcm,tok,tests=sys.argv[1:]
-try: m=json.load(open(src))
-except Exception: m={}
+src,dst,pid,rc,nv,secs,rcc,rcm,tok,tests,tier=sys.argv[1:]
+try: m=json.load(open(dst))
+except Exception:
+    try: m=json.load(open(src))
+    except Exception: m={}
 m.update({"property":pid,"confirmed":{"demo_exit_unchanged":int(rcc),"demo_exit_with_change":int(rcm),"existing_tests_with_change":tok,"tests_command":"/venv/bin/python -m pytest -q -p no:cacheprovider "+tests},
- "detection":{"command":"./vcheck run %s --tier quick --quiet"%pid,"exit_code":int(rc),"violation_lines":int(nv),"seconds":int(secs),"detected":int(rc)==1 and int(nv)>0}})
+ ("detection" if tier=="quick" else "detection_"+tier):{"command":"./vcheck run %s --tier %s --quiet"%(pid,tier),"exit_code":int(rc),"violation_lines":int(nv),"seconds":int(secs),"detected":int(rc)==1 and int(nv)>0}})
 json.dump(m,open(dst,"w"),indent=1)
 PY
-echo "$ID $NAME: check exit=$RC violations=$NV in $((T1-T0))s | $FIRST" | tee -a /verif/seeded/RESULTS.txt
+echo "$ID $NAME [$TIER]: check exit=$RC violations=$NV in $((T1-T0))s | $FIRST" | tee -a /verif/seeded/RESULTS.txt
